@@ -3,7 +3,8 @@
    support (Produce v1, Fetch v1) and the concrete values used by the non-vacuity Examples. *)
 From Coq Require Import Lia.
 From AV Require Import Base.Util Model.Prim Model.Crc Model.MsgSet Model.KafkaSpecResp Model.Responses Model.RespView
-     Proofs.PrimFacts Proofs.UtilFacts Proofs.RespPrim Proofs.RespRoundTrip Proofs.RespMsgSet.
+     Proofs.PrimFacts Proofs.UtilFacts Proofs.Truncation Proofs.RespPrim Proofs.RespRoundTrip Proofs.RespMsgSet
+     Proofs.RespAfkakSet.
 
 Lemma c05_correlation corr rest : i32 corr = true -> get_response_correlation_id (INT32 corr ++ rest) = Ok corr.
 Proof. apply correlation_rt. Qed.
@@ -72,6 +73,24 @@ Lemma c05_msgset_lazy gz orc :
   forall d ts, (kdepth_forest ts < d)%nat -> forallb (wf_ktree gz) ts = true ->
   dec_set d orc (enc_kforest gz ts) = (view_log (log_of_forest ts), None).
 Proof. intros Hgz d ts Hd Hwf. exact (msgset_rt gz orc Hgz d ts Hd Hwf). Qed.
+
+Lemma c05_msgset_snappy sn orc :
+  sn_avail orc = true -> (forall x, sn_dec orc (sn x) = Ok x) ->
+  forall d ts, (kdepth_forest ts < d)%nat -> forallb (wf_ktree_c CODEC_SNAPPY sn) ts = true ->
+  dec_set_all d orc (enc_kforest sn ts) = Ok (view_log (log_of_forest ts)).
+Proof.
+  intros Ha Hsn d ts Hd Hwf. unfold dec_set_all. pose proof (msgset_rt_snappy sn orc Ha Hsn d ts Hd Hwf) as H.
+  unfold decodes in H. now rewrite H.
+Qed.
+
+(* ------------------------------------------------------------------ afkak's own encoder, then its decoder *)
+Lemma c05_afkak_gzip_offsets clock k msgs off :
+  absolute off (expected clock k msgs 0 0) = map (fun om => (off, snd om)) (expected clock k msgs 0 0).
+Proof.
+  apply absolute_zero. apply Forall_forall. intros [o m] I.
+  assert (Io : In o (map fst (expected clock k msgs 0 0))) by (apply in_map_iff; exists (o, m); auto).
+  rewrite expected_zero_offsets in Io. apply in_map_iff in Io. destruct Io as (_ & <- & _). reflexivity.
+Qed.
 
 (* ------------------------------------------------------------------ dictionaries with unique keys lose nothing *)
 Section Dict.
